@@ -80,9 +80,9 @@ PROPS = {
                 technique='exact (<=>) postcondition on table_decommit, functional postcondition + loop invariant on generate_vector_queries',
                 note='The two iterator chains (into_iter().map().collect(), extend(flat_map)) enter through hoisting rules with assumed std semantics (A-iter).'),
     'C06': dict(quick=['core'], thorough=['core'],
-                claim='The FRI verifier functions are proved equal to mathematical walks: fri_formula2/4/8/16 = the k-fold composition fold_spec of the one-step fold (omega constants proved to be inverse subgroup generators, the 16 group literals proved to be the order-16 subgroup in bit-reversed order); coset gathering, next-layer computation, Horner evaluation and first-layer translation match their specs. The algebraic fold identity and completeness for an honest prover: see evidence (lemma status).',
-                technique='functional postconditions + loop invariants on fri_formula*, compute_coset_elements, compute_next_layer, horner_eval, gather_first_layer_queries; compute_only lemmas for constants',
-                note='Not decided: end-to-end acceptance of an honest prover (needs a prover model).'),
+                claim='(i) The FRI verifier functions are proved equal to mathematical walks: fri_formula2/4/8/16 = the k-fold composition fold_spec of the one-step fold (omega constants proved to be inverse subgroup generators, the 16 group literals proved to be the order-16 subgroup in bit-reversed order); coset gathering, next-layer computation, Horner evaluation and first-layer translation match their specs. (ii) THE FOLD IDENTITY of the statement is machine-checked for fold_spec, k = 1..4: for every coefficient vector c, base point x, challenge b, folding the honest coset values V_k(x) (V_1(x) = [P(x), P(-x)], V_k(x) = V_(k-1)(x) ++ V_(k-1)(x*g_k)) yields 2^k * F(x^(2^k)) where coefficient i of F is sum_(j<2^k) b^j * c[2^k*i + j], i.e. F = sum_j b^j P_j. (iii) the verifier-side exact characterisations (layers, last layer, lengths) that completeness rests on carry the C06 label as well.',
+                technique='functional postconditions + loop invariants on fri_formula*, compute_coset_elements, compute_next_layer, horner_eval, gather_first_layer_queries; compute_only lemmas for constants; verified lemma chain lemma_split, lemma_combine, lemma_fold_step, lemma_fold_identity, lemma_fold_poly_coeff (templates/fri/fold_identity.rs: integer identities reduced mod P)',
+                note='Not decided: end-to-end acceptance of an honest prover (needs a prover model: Merkle tree construction, transcript).'),
     'C07': dict(quick=['core'], thorough=['core'],
                 claim='fri_verify is proved to return Ok exactly when: one value per query; for EVERY inner layer the gathered coset rows decommit against that layer\'s root (table_decommit_ok) and fold to the next layer; the last layer has exactly 2^bound coefficients; the coefficient polynomial evaluated at 1/x_inv equals the folded value at every surviving query. Missing witness leaves / layers give Err.',
                 technique='exact (<=>) postconditions on fri_verify, fri_verify_layers (spec layers_walk), verify_last_layer, compute_next_layer',
